@@ -461,6 +461,28 @@ func c02Check(c *Ctx, cnt *counterSet, idx int, m *refmsg.Msg, w []byte) (reject
 		}
 	}
 
+	// ... and so is a Pack that failed half way (destination too small - the caller retries with a
+	// larger one, or releases the message and the pooled object serves another message).
+	if idx%4 == 1 && L > 40 {
+		for _, short := range []int{L / 2, L - 1, 13} {
+			if _, err := pm.Pack(make([]byte, short), idx%8 == 1, 0); err == nil && short < len(w1) {
+				viol("pack-into-short-buffer-succeeded", fmt.Sprintf("Pack into a %d-octet destination reported success for a message that needs %d (compressed) / %d octets", short, len(w1), L), w0, w1)
+			}
+		}
+		y0, e0 := pack(pm, false)
+		y1, e1 := pack(pm, true)
+		switch {
+		case e0 != nil || e1 != nil:
+			viol("repack-after-failed-pack:error", fmt.Sprintf("after a Pack that failed for lack of room the Pack into a sufficient destination failed: %v %v", e0, e1), w0, w1)
+		case !bytes.Equal(y0, w0):
+			viol("repack-after-failed-pack:uncompressed", "after a Pack of the same message that failed for lack of room, Pack(compress=false,size=0) differs from the encoding made before it", w0, y0)
+		case !bytes.Equal(y1, w1):
+			viol("repack-after-failed-pack:compressed", "after a Pack of the same message that failed for lack of room, Pack(compress=true,size=0) differs from the encoding made before it", w1, y1)
+		default:
+			local["repacked_identically_after_failed_pack"]++
+		}
+	}
+
 	// the Z bit is reserved, mosproxy's Header has no field for it: not compared (counted)
 	mask := uint16(0xFFFF) &^ refmsg.BitZ
 	if m.Bits&refmsg.BitZ != 0 {
